@@ -63,3 +63,54 @@ Theorem C02_early_return_with_else_rejected : forall G c th el st rest tf u,
   tr_block tf G u (BCons (SIf c th (Some el)) (BCons st rest)) = None.
 Proof. exact rejects_early_return_with_else. Qed.
 Print Assumptions C02_early_return_with_else_rejected.
+
+(* ---- the loop fragment (Tr/MiniGoL.v: for loops, break/continue, nested blocks) *)
+From GV Require Import Tr.MiniGoL Tr.MiniGoLProofs Tr.MiniGoLBlocks Tr.MiniGoLFunc.
+
+(* rejected, or faithful, for whole functions of the loop fragment *)
+Theorem C02_loops_rejected_or_faithful : forall fn,
+  match trl_func fn with
+  | None => True
+  | Some f =>
+      forall n args v s',
+        NoDup (lf_name fn :: map fst (lf_params fn)) -> lf_params fn <> [] ->
+        length args = length (lf_params fn) ->
+        lgo_call n fn args = LRet v s' ->
+        exists m, eval m (fold_left App (map Val args) (Val f)) state0 = RVal v s'
+  end.
+Proof.
+  intros fn. destruct (trl_func fn) as [f|] eqn:E; [|exact I].
+  intros n args v s' Hnd Hne Hlen Hgo. exact (lfunc_correct n fn f args v s' E Hnd Hne Hlen Hgo).
+Qed.
+Print Assumptions C02_loops_rejected_or_faithful.
+
+(* ... at every position: any statement list under any usage, any continuation *)
+Theorem C02_loops_rejected_or_faithful_everywhere : forall n, Q_lgo n /\ Q_lloop n.
+Proof. exact trlk_correct. Qed.
+Print Assumptions C02_loops_rejected_or_faithful_everywhere.
+
+(* the guards of the loop fragment *)
+Theorem C02_break_outside_loop_rejected : forall f G u k, u <> ULoop -> trl f G u (LCons LBreak LNil) k = None.
+Proof. exact rejects_break_outside_loop. Qed.
+Print Assumptions C02_break_outside_loop_rejected.
+
+Theorem C02_continue_outside_loop_rejected : forall f G u k, u <> ULoop -> trl f G u (LCons LContinue LNil) k = None.
+Proof. exact rejects_continue_outside_loop. Qed.
+Print Assumptions C02_continue_outside_loop_rejected.
+
+Theorem C02_code_after_break_rejected : forall f G u st rest k, trl f G u (LCons LBreak (LCons st rest)) k = None.
+Proof. exact rejects_code_after_break. Qed.
+Print Assumptions C02_code_after_break_rejected.
+
+Theorem C02_code_after_continue_rejected : forall f G u st rest k, trl f G u (LCons LContinue (LCons st rest)) k = None.
+Proof. exact rejects_code_after_continue. Qed.
+Print Assumptions C02_code_after_continue_rejected.
+
+Theorem C02_return_inside_loop_rejected : forall f G e k, trl f G ULoop (LCons (LReturn e) LNil) k = None.
+Proof. exact rejects_return_in_loop_body. Qed.
+Print Assumptions C02_return_inside_loop_rejected.
+
+Theorem C02_loop_post_declaring_rejected : forall f G u init cond x e body rest k,
+  trl f G u (LCons (LFor init cond (Some (SDefine x e)) body) rest) k = None.
+Proof. exact rejects_declaring_post. Qed.
+Print Assumptions C02_loop_post_declaring_rejected.
